@@ -100,6 +100,18 @@ example : (cacheGet (fun a b : Nat × Nat => a.1 == b.1) id (fun k => k.1 + k.2)
     (cacheRun (fun a b : Nat × Nat => a.1 == b.1) id (fun k => k.1 + k.2) none [((1, 2), false, true)])
     (1, 5) false true).2 = 3 := by decide
 
+/-! ## the lazy store is a sound memo (per grid) -/
+
+/-- **Memoisation.**  For ANY population table passing the decidable check `wfB` and ANY store in
+    which every entry is its reference value (`Inv`): a property getter returns the reference value
+    `fr v` (what the pure recursion over the source yields — no store, no history), only adds
+    entries, keeps `Inv`, and leaves the module globals alone.  (`Lemmas/Caches.lean`, induction on
+    the nesting depth of getters; the fold over a unit's writes is `writes_fold`.) -/
+theorem memo_sound {T : Table} {sig : Var → Bool} (s : Nat) (h : wfB T sig = true) (n : Nat) (v : Var)
+    (σ : St) (hinv : Inv T sig s σ.1) (hfuel : sig v = true ∨ T.rk v < n) :
+    Post T sig s v σ (getV T n v σ) :=
+  getV_sound s (wf_of_wfB h) n v σ hinv hfuel
+
 /-! ## worlds -/
 
 /-- every grid of the world is consistent with its source and the module globals are pristine -/
